@@ -16,6 +16,7 @@ import YalafiVerif.Proofs.Lines
 import YalafiVerif.Proofs.PlainComment
 import YalafiVerif.Generated.Init
 import YalafiVerif.Proofs.PlainFootnote
+import YalafiVerif.Properties.PlainVanishStmt
 namespace Yalafi
 
 /-- tokens returned by `parser_work` (the main flow) are of output classes, whatever the text -/
